@@ -564,10 +564,24 @@ def _fmt_int(E, A):
     FM.isinstance = sym_isinstance
     try:
         for cls, t, f in ((CFormatter, "true", "false"), (GoFormatter, "true", "false"), (PyFormatter, "True", "False")):
+            # the value's KIND decides the literal, not its hash / equality class (True == 1, False == 0 in Python): in either order,
+            # on one formatter object
             fm = cls()
-            r = fm.format_int_value(SymInt(v))
+            seq1 = [fm.format_value(True), fm.format_value(1), fm.format_value(False), fm.format_value(0)]
+            fm = cls()
+            seq2 = [fm.format_value(1), fm.format_value(True), fm.format_value(0), fm.format_value(False)]
+            E.oblige("post:bool-and-int-of-equal-value-keep-their-kind[%s]" % cls.__name__,
+                     z3.BoolVal(seq1 == [t, "1", f, "0"] and seq2 == ["1", t, "0", f]))
+            fm = cls()
+            try:
+                r = fm.format_int_value(SymInt(v))
+            except TypeError as e:
+                raise EN.Unsupported("format_int_value on a symbolic int: %r" % (e,))
             E.oblige("post:int[%s]" % cls.__name__, z3.BoolVal(r == sym_str_marker(v)))
-            r = fm.format_value(SymInt(v))
+            try:
+                r = fm.format_value(SymInt(v))
+            except TypeError as e:
+                raise EN.Unsupported("format_value on a symbolic int: %r" % (e,))
             E.oblige("post:value-int[%s]" % cls.__name__, z3.BoolVal(r == sym_str_marker(v)))
             E.oblige("post:bool[%s]" % cls.__name__, z3.BoolVal(fm.format_bool_value(True) == t and fm.format_bool_value(False) == f
                                                                and fm.format_value(True) == t and fm.format_value(False) == f))
